@@ -1417,6 +1417,12 @@ impl Server {
         if self.in_transaction() {
             warn!(target: "pgcat::server::cleanup", "Server returned while still in transaction, rolling back transaction");
             self.query("ROLLBACK").await?;
+
+            // Only the server's answer tells if that worked: a connection left in copy-in mode does not
+            // execute the ROLLBACK, it reads the message as a protocol violation that fails the transaction.
+            if self.in_transaction() {
+                self.mark_bad("still in a transaction after ROLLBACK");
+            }
         }
 
         // Client disconnected but it performed session-altering operations such as
